@@ -5,6 +5,7 @@ patch="$(readlink -f "$1")"; prop="$2"; tier="${3:-quick}"
 cd /repo || exit 2
 if [ -n "$(git status --porcelain)" ]; then echo "repo not clean"; exit 2; fi
 git apply "$patch" || { echo "patch does not apply"; exit 2; }
-trap 'git -C /repo checkout -- . ; git -C /repo clean -fdq' EXIT
+ev=$(mktemp -d); cp -r /verif/evidence $ev/
+trap 'git -C /repo checkout -- . ; git -C /repo clean -fdq; rm -rf /verif/evidence; cp -r $ev/evidence /verif/evidence; rm -rf $ev' EXIT
 cd /verif && ./check "$prop" "$tier" 2>&1 | grep -v "^KNOWN-FINDING" | tail -${TAILN:-6}
 echo "exit=${PIPESTATUS[0]}"
